@@ -342,6 +342,18 @@ theorem C23_1_pinned_arg_hides_noncompound_term :
     arg3 (.int (2 ^ 64)) (.atom "a") (.var "X") = .err (typeErr "compound" (.atom "a")) := by
   refine ⟨by simp [arg3Pinned], by simp [arg3]⟩
 
+/-- Finding C23-2 (what the pinned implementation panics on): `X = [b], arg(1, "abc", X)` is the
+    plain unification of `[b]` with the first argument `a`, i.e. failure — in the model the mode
+    "third argument instantiated" needs no special case. -/
+theorem C23_2_arg_first_char_against_bound_list :
+    arg3 (.int 1) (Term.ofChars ['a', 'b', 'c']) (Term.ofList [.atom "b"]) = .fail := by
+  have := C23_arg_in_range "." [.atom "a", Term.ofChars ['b', 'c']] 0 (by decide)
+    (Term.ofList [.atom "b"])
+  simp only [Int.ofNat_zero, Int.zero_add, List.getElem_cons_zero] at this
+  have e : Term.ofChars ['a', 'b', 'c'] = .str "." [.atom "a", Term.ofChars ['b', 'c']] := rfl
+  rw [e, this]
+  simp [unifyAll, Term.ofList, Term.cons, solve, constEq, ofOutcome]
+
 /-- below `2^64` the pinned code and the repaired model coincide. -/
 theorem C23_arg_pinned_eq {n : Term} (h : ∀ v, n = .int v → v < 2 ^ 64) (t x : Term) :
     arg3Pinned n t x = arg3 n t x := by
